@@ -107,6 +107,60 @@ def build_tree(top, nodes):
     return exp, paths
 
 
+def build_named(top, entries):
+    """entries: [(relpath, 'dir'|'file'|'link', link text)] in creation order -> expected map (same form as build_tree)."""
+    shutil.rmtree(top, ignore_errors=True)
+    os.makedirs(top)
+    exp = {}
+    for i, (rel, kind, text) in enumerate(entries):
+        p = os.path.join(top, rel)
+        if kind == "dir":
+            os.makedirs(p)
+        elif kind == "file":
+            with open(p, "wb") as f:
+                f.write(content.make("random", 21 + 3 * i, 50 + i) + rel.encode())
+        else:
+            os.symlink(text, p)
+            exp[rel] = ("link", text, None, None)
+    ns = int(round(MTIMES[0] * 1e9))
+    for rel, kind, _ in sorted(entries, key=lambda e: -e[0].count("/")):
+        if kind != "link":
+            os.utime(os.path.join(top, rel), ns=(ns, ns))
+    for rel, kind, _ in entries:
+        p = os.path.join(top, rel)
+        if kind == "dir":
+            os.utime(p, ns=(ns, ns))
+            exp[rel] = ("dir", None, stat_mode(p), os.lstat(p).st_mtime)
+        elif kind == "file":
+            with open(p, "rb") as f:
+                exp[rel] = ("file", f.read(), stat_mode(p), os.lstat(p).st_mtime)
+    return exp
+
+
+def stat_mode(p):
+    import stat as _stat
+
+    return _stat.S_IMODE(os.lstat(p).st_mode)
+
+
+def named_cases():
+    """Trees whose names COLLIDE with the name of the archived top directory ('src') and with each other: every parent-closed
+    set of directories out of {b, src, src/b}, a file 'f' in each directory, and one link placed in any directory pointing
+    (by relative text) at any of the files.  A link text such as 'src/f' then spells both <top>/src/f (what it means) and the
+    cwd-relative source path of the member <top>/f (what it must not be confused with)."""
+    out = []
+    for dirs in ([], ["b"], ["src"], ["b", "src"], ["src", "src/b"], ["b", "src", "src/b"]):
+        files = ["f"] + [d + "/f" for d in dirs]
+        for where in [""] + dirs:
+            for tgt in files:
+                text = os.path.relpath(tgt, where or ".")
+                entries = [(d, "dir", None) for d in dirs] + [(f, "file", None) for f in files] + [(os.path.join(where, "lnk"), "link", text)]
+                for source in ("relative", "absolute"):
+                    for arcname in (None, "given/arc"):
+                        out.append({"named": entries, "arcname": arcname, "dereference": False, "flavour": "copy", "entry": "writeall", "source": source})
+    return out
+
+
 def snapshot(root):
     out = {}
     for d, dirs, files in os.walk(root):
@@ -153,8 +207,12 @@ def run_case(case, wd):
     os.makedirs(base)
     top = os.path.join(base, "work", "src")
     os.makedirs(os.path.dirname(top))
-    nodes = [dict(n) for n in case["nodes"]]
-    exp, paths = build_tree(top, nodes)
+    if "named" in case:
+        nodes, paths = [], []
+        exp = build_named(top, [tuple(e) for e in case["named"]])
+    else:
+        nodes = [dict(n) for n in case["nodes"]]
+        exp, paths = build_tree(top, nodes)
     if exp is None:
         return None
     if case["dereference"]:
@@ -290,6 +348,13 @@ def shard(task):
                 sh.violation({"symptom": sym, "deviations": devs, "plane": "deviations"}, f"tree {shape} deviations {ch.decoded()}: {msg}", {"case": case})
 
         explore.explore(body, bound, on_exec, prefix=prefix)
+    elif kind == "named":
+        for case in task[1]:
+            r = run_case(case, wd)
+            sh.case(("named", case["named"], case["source"], case["arcname"]), sample={"entries": case["named"]} if len(sh.samples) < 1 else None)
+            for sym, msg in r:
+                sh.violation({"symptom": sym, "plane": "colliding-names", "source": case["source"], "arcname": case["arcname"] is not None},
+                             f"tree {[e for e in case['named'] if e[1] != 'file']} source={case['source']} arcname={case['arcname']}: {msg}", {"case": case})
     elif kind == "mtimes":
         for mt in task[1]:
             case = {"nodes": [dict(default_node(-1, "file"), mtime=mt), dict(default_node(-1, "dir"), mtime=mt)], "arcname": None, "dereference": False, "flavour": "copy", "entry": "writeall", "source": "relative"}
@@ -343,6 +408,7 @@ def main(tier="quick", seed=0, only=None):
         tasks.append(("dev", shape, [], 0))
         tasks += [("dev", shape, k, bound) for k in explore.children(probe, 0, bound)]
     tasks += [("mtimes", c) for c in chunks(mtime_values(), 40)]
+    tasks += [("named", c) for c in chunks(named_cases(), 12)]
     import random
 
     random.Random(seed).shuffle(tasks)
@@ -357,7 +423,7 @@ def main(tier="quick", seed=0, only=None):
             "filter; for 6 richer trees every combination of <= "
             f"{bound} deviations over per-node mode (files 0400..0777, dirs 0500..0777), per-node mtime (1 s, 1e9+.123456, 2^31+.5, 2100-eps), per-node "
             "name class (leading dot, spaces, control chars, BMP, astral, 'c:' prefix), arcname given, dereference, default filters, "
-            "password, pack_7zarchive/unpack_7zarchive, absolute source; and a sweep of a file+directory pair over "
+            "password, pack_7zarchive/unpack_7zarchive, absolute source; trees whose names collide with the archived top directory's own name (every parent-closed directory set out of {b, src, src/b} under a top called 'src', a file in each, one link anywhere pointing at any file; relative and absolute source, arcname given or not); and a sweep of a file+directory pair over "
             f"{len(mtime_values())} modification times (k*10^j, +-1 us, 2^k+-1 us) in 1970..2100. Oracle: lstat/readlink/bytes of the extracted tree "
             "vs the source: same path set incl. empty directories, kinds, bytes, link text, permission bits of files and directories, "
             "|delta mtime| <= 5 us; with dereference links are replaced by what they point to."
